@@ -5,7 +5,7 @@
    of the cache remains.  The code before the repair (cleanup skipped when the outer
    select! branch of try_connect wins the cancellation race) is refuted. *)
 From Coq Require Import List Arith NArith Bool Lia ZifyBool ZifyNat ZifyN.
-From RB Require Import Base.Val Model.Rpki Model.RtrClient Model.RtrConn
+From RB Require Import Base.Val Model.Rpki Model.RtrClient Model.RtrConn Spec.Rfc6811 Spec.RtrSpec
   Proofs.RpkiTrie Proofs.Rpki Proofs.RtrClient.
 Import ListNotations.
 Open Scope N_scope.
@@ -434,4 +434,25 @@ Proof.
   destruct U as [U1 U2]. split.
   - intro H. destruct (k_task k) eqn:T; [|reflexivity|]; rewrite U2 in H by discriminate; discriminate.
   - intro T. apply U1. exact T.
+Qed.
+
+(* ---- the sessions the connection layer starts: the fold theorem of a single session
+   (C13_installed_eq_fold_at_eod, stated for the locals of a first session) holds for
+   EVERY session of a client, whatever RpkiState (session id, serial, counters) and
+   Notify permit earlier sessions of the registration left behind, over whatever the
+   table holds (other caches' VRPs; nothing of this cache's earlier identities, by
+   conn_only_live_session) *)
+Theorem C13_conn_session_fold : forall (st0 : cstate) (c : N) (ms : list msg) (t0 : rtab),
+  wf_tab t0 -> conforming (map view ms) ->
+  let '(st, t) := run_pdus fixed c ms (new_session st0) t0 in
+  (c_eod st = true <-> seen_eod (map view ms))
+  /\ (c_eod st = true -> forall r, installed c t r <-> announced (map view ms) r).
+Proof.
+  intros st0 c ms t0 W C.
+  pose proof (run_pdus_fold ms c (new_session st0) t0 (fun _ => False) W (v_ok_new_session c st0)) as H.
+  assert (I0 : fold_inv c (new_session st0) t0 (fun _ => False)) by (unfold fold_inv, v_recs; cbn; tauto).
+  specialize (H I0 (or_intror C)).
+  destruct (run_pdus fixed c ms (new_session st0) t0) as [st t]. destruct H as [I [_ [_ S]]].
+  split; [rewrite S; cbn; split; [intros [H|H]; [discriminate|exact H]|intro H; right; exact H]|].
+  intros E r. unfold fold_inv in I. rewrite E in I. apply I.
 Qed.
